@@ -75,6 +75,9 @@ def run(ctx):
     rule_alg(ctx, F)
     rule_prime(ctx, F)
     rule_time48(ctx, F)
+    rule_other(ctx, F)
+    rule_first(ctx, F)
+    rule_reset(ctx, F)
 
 
 def _calls(b, rx):
@@ -857,3 +860,93 @@ def rule_chain(ctx, F):
                "length) signer and verifier digest different octets and every later message of the sequence "
                "fails with BADSIG" % cb.path.split("::")[-2:], cb.where(bb))
     ctx.call_sites += n
+
+
+def rule_other(ctx, F):
+    """Other Data is a signed variable.  The reader accepts 0 or 6 octets of it for any error code, and what the digest is
+    fed comes from Tsig::other_time(): that accessor answers Some for *every* 6-octet field -- not only under
+    BADTIME -- or octets added to a record with another error code are accepted and not digested."""
+    R = "C11.other"
+    ctx.floor(R, 1)
+    b = F.one_body(r"^rdata::tsig::Tsig::<O, N>::other_time$") or F.one_body(r"^rdata::tsig::Tsig::<.*>::other_time$")
+    if not ctx.anchor(R, "Tsig::other_time", b):
+        return
+    n = 0
+    for bi in sorted(b.reachable_blocks()):
+        for st in b.blocks[bi]["s"]:
+            if st[0] == "=" and st[2][0] == "agg" and st[2][1][0] == "adt" and st[2][1][1] == "core::option::Option" and "Some" in str(st[2][1][2:]):
+                n += 1
+                extra = []
+                for tm, v in bool_facts(b, bi, F):
+                    sh = show(tm)
+                    if "len(" not in sh and "PtrMetadata" not in sh:
+                        extra.append(sh[:80])
+                ctx.ob(R, b, "the time in Other Data is handed out for every 6-octet field", not extra,
+                       "Tsig::other_time answers Some only under the additional condition %s: for records that fail it the "
+                       "digest is computed as if Other Len were 0, while the reader accepts the 6 octets -- octets spliced "
+                       "into a signed message are neither refused nor signed" % extra[:2], b.where(bi))
+    ctx.ob(R, b, "other_time has a Some exit", n >= 1, "no Some(..) in other_time", nontrivial=False)
+
+
+def rule_first(ctx, F):
+    """A sequence's first answer has to be signed (RFC 8945 5.3.1), so `first` is cleared only once a first answer has
+    verified: every store of `false` into ClientSequence.first (an assignment or mem::replace) lies behind the
+    success of the MAC comparison and the time check."""
+    R = "C11.first"
+    ctx.floor(R, 1)
+    n = 0
+    for p, b in sorted(F.bodies.items()):
+        if not re.match(r"^tsig::ClientSequence::<K>::\w+$", p):
+            continue
+        sites = []
+        for bi in sorted(b.reachable_blocks()):
+            if b.blocks[bi].get("c"):
+                continue
+            for st in b.blocks[bi]["s"]:
+                if st[0] == "=" and len(st[1]) > 1:
+                    tgt = deep_strip(b.term_of_place(st[1]))
+                    if tgt == ("field", ("arg", 1), "first") and const_value(deep_strip(b.term_of_rvalue(st[2]))) in (0, False):
+                        sites.append(bi)
+            t = b.blocks[bi]["t"]
+            if t["k"] == "call" and re.search(r"mem::(replace|take)(::<.*>)?$", t["fn"] or "") and t["args"]:
+                if deep_strip(b.term_of_operand(t["args"][0])) == ("field", ("arg", 1), "first"):
+                    sites.append(bi)
+        for bi in sites:
+            n += 1
+            succ = succeeded_calls(b, bi, F)
+            names = {(b.blocks[x]["t"]["fn"] or "").split("::")[-1] for x in succ}
+            ctx.ob(R, b, "`first` is cleared only after the first answer verified", {"compare_signatures", "check_answer_time"} <= names,
+                   "%s clears ClientSequence.first without the MAC comparison and the time check having succeeded on the way "
+                   "(succeeded there: %s): after one rejected first answer every unsigned message is taken for a permitted "
+                   "intermediate message and the genuine signed answer fails" % (p.split("::")[-1], sorted(names)[:6]), b.where(bi))
+    ctx.ob(R, "tsig::ClientSequence", "a place that clears `first`", n >= 1, "no store to ClientSequence.first found", nontrivial=False)
+
+
+def rule_reset(ctx, F):
+    """RFC 8945 5.3.1: the digest of a sequence's first answer starts with the request MAC, every later one with the
+    previous answer's MAC only.  SigningContext::first_answer therefore *replaces* the running context by a fresh
+    one (primed afterwards by apply_signature) and signs with the old one; without the replacement message #2 is
+    digested with both MACs in front."""
+    R = "C11.reset"
+    ctx.floor(R, 1)
+    b = F.one_body(r"^tsig::SigningContext::<K>::first_answer$")
+    if not ctx.anchor(R, "SigningContext::first_answer", b):
+        return
+    fresh = [bb for bb, t in b.calls() if re.search(r"::signing_context$", t["fn"] or "")]
+    swap = [bb for bb, t in b.calls() if re.search(r"mem::(swap|replace)(::<.*>)?$", t["fn"] or "")
+            and any(deep_strip(b.term_of_operand(a)) == ("field", ("arg", 1), "context") or
+                    show(deep_strip(b.term_of_operand(a))).endswith(".context") for a in t["args"])]
+    assign = []
+    for bi in b.reachable_blocks():
+        for st in b.blocks[bi]["s"]:
+            if st[0] == "=" and len(st[1]) > 1 and deep_strip(b.term_of_place(st[1])) == ("field", ("arg", 1), "context"):
+                assign.append(bi)
+    rets = [i for i in b.reachable_blocks() if b.blocks[i]["t"]["k"] == "ret" and not b.blocks[i].get("c")]
+    ok = bool(fresh) and bool(swap or assign)
+    if ok:
+        ok, _ = must_pass(b, 0, rets, swap + assign)
+    ctx.ob(R, b, "the running context is replaced by a fresh one", ok,
+           "first_answer signs without putting a fresh signing context in place of the running one (found signing_context "
+           "calls: %d, replacements of self.context: %d): the second signed message of a sequence is then digested as request "
+           "MAC || MAC#1 || message instead of MAC#1 || message -- the library's own client repeats the mistake, an RFC 8945 "
+           "peer answers BADSIG" % (len(fresh), len(swap) + len(assign)))
